@@ -217,7 +217,8 @@ def run(prop, tier, seed, replay, UNITS, build_unit, run_verus, scan_assumptions
         ev['coverage']['distinct_nontrivial'] = bounded.get('distinct_nontrivial', 0)
         ev['coverage']['rule'] = bounded.get('rule', '')
     os.makedirs(os.path.join(ROOT, 'evidence'), exist_ok=True)
-    json.dump(ev, open(os.path.join(ROOT, 'evidence', prop + '.json'), 'w'), indent=1)
+    if not os.environ.get('VERIF_NO_EVIDENCE'):
+        json.dump(ev, open(os.path.join(ROOT, 'evidence', prop + '.json'), 'w'), indent=1)
 
     for l in known_lines:
         print(l)
